@@ -80,7 +80,8 @@ where
             x: 0,
             y: 0,
             size: crop_area.size,
-            row_skip: (size.width - crop_area.size.width) as usize,
+            // A zero sized crop area isn't confined to `size` by `intersection` and can be wider.
+            row_skip: size.width.saturating_sub(crop_area.size.width) as usize,
         }
     }
 }
